@@ -45,7 +45,7 @@ CHECKS["C20"] = dict(
 
 CHECKS["C04"] = dict(
     text=("Values.tla gives each built-in value parser its language declaratively (decimal notation over arbitrary-precision digit "
-          "strings, range, target width; literal tables; names and aliases) next to the mechanism as written (parse as i64/u64, "
+          "strings, range, target width; literal tables; names and aliases for PossibleValuesParser and EnumValueParser; non-empty OS strings for PathBuf) next to the mechanism as written (parse as i64/u64, "
           "bounds, checked narrowing); TLC checks mechanism = language for every (width, constructor, range, candidate string) in the "
           "boundary family and the typed-access machine's frame properties for every call history; each case is parsed by a real "
           "Command and read back with get_one::<T> (accept/reject, value, error kind, raw string, argument named); random 64-bit "
